@@ -73,5 +73,5 @@ def options(draw, scale="country", horizons=None, overrides=False, shutoff=None,
         if draw(st.integers(0, 3)) == 0:
             o["GRASSES_PRODUCTION_MULTIPLIER"] = draw(st.floats(0, 3).map(lambda x: round(x, 4)))
         if draw(st.integers(0, 5)) == 0:
-            o["kg_meat_per_large_animal"] = draw(st.floats(50, 600).map(lambda x: round(x, 2)))
+            o["kg_meat_per_large_animal"] = draw(st.sampled_from([0.0, 269.7]) | st.floats(0, 600).map(lambda x: round(x, 2)))
     return o
